@@ -761,6 +761,37 @@ func runC08(c *config) {
 			c.out.Pass("llvm_numbering_accepted")
 		}
 	}
+	// the first print of a constructed module: a reference from an earlier function to an unnamed block of a later
+	// one shows the number LLVM gives that block, wherever declarations stand among the functions
+	for variant := 0; variant < 12; variant++ {
+		m := ir.NewModule()
+		if variant%3 == 1 {
+			m.NewFunc("decl_first", types.Void)
+		}
+		early := m.NewFunc("early", types.NewPointer(types.I8))
+		if variant%3 == 2 {
+			m.NewFunc("decl_between", types.Void, ir.NewParam("", types.I32))
+		}
+		f := m.NewFunc("f", types.Void, ir.NewParam("", types.I32))
+		e := f.NewBlock("")
+		nadd := variant / 3
+		for k := 0; k < nadd; k++ {
+			e.NewAdd(f.Params[0], f.Params[0])
+		}
+		bb := f.NewBlock("")
+		e.NewBr(bb)
+		bb.NewRet(nil)
+		early.NewBlock("").NewRet(constant.NewBlockAddress(f, bb))
+		want := fmt.Sprintf("blockaddress(@f, %%%d)", 2+nadd) // parameter %0, entry block %1, the adds, then the block
+		var first, second string
+		oc, msg := guard(func() error { first = m.String(); second = m.String(); return nil })
+		c.out.Stat("constructed_first_print")
+		if oc != ocOk || !strings.Contains(first, want) || first != second {
+			c.out.Fail("llvm_numbering", "", "the first print of a constructed module does not show LLVM's number for an unnamed block referred to from an earlier function", map[string]interface{}{"printed": first, "second": second, "expected": want, "msg": msg})
+		} else {
+			c.out.Pass("llvm_numbering")
+		}
+	}
 	// declarations: the unnamed parameters are numbered too, whether the function is printed on its own
 	// (Func.LLString on a function nothing has printed yet) or through its module
 	for i := 0; i < 200*c.scale; i++ {
